@@ -23,6 +23,7 @@ pub mod scen_batch;
 pub mod scen_codec;
 pub mod scen_core;
 pub mod scen_ctors;
+pub mod scen_gens;
 pub mod scen_recover;
 pub mod scen_transcript;
 
@@ -52,6 +53,11 @@ fn main() {
         "C17" => scen_ctors::c17(&opts, &mut out),
         "C06" => scen_ctors::c06(&opts, &mut out),
         "C04" => scen_transcript::c04(&opts, &mut out),
+        "C11" => {
+            let labels: Vec<Vec<u8>> = args.get(4).map(|s| s.split(',').map(util::unhex).collect()).unwrap_or_default();
+            scen_gens::c11(&opts, &mut out, &labels)
+        },
+        "C12" => scen_gens::c12(&opts, &mut out),
         "C07" => scen_recover::c07(&opts, &mut out),
         "C08" => scen_recover::c08(&opts, &mut out),
         "C09" => scen_recover::c09(&opts, &mut out),
